@@ -121,7 +121,15 @@ def gen_plan(tape, cfg):
         profiles.append(lst)
     member_opts = [tape.choice([None, None, {"random_seed": 7}, {"generate_models": True}], "member.opts")
                    for _ in range(nmem)]
+    # the documented usage [("s", {...}), ("s", {...})]: the same solver listed twice with different options
+    member_names = ["m%d" % m for m in range(nmem)]
+    if tape.chance(1, 4, "duplicate.names"):
+        j = tape.rint(1, nmem - 1, "duplicate.which")
+        member_names[j] = member_names[j - 1]
+        member_opts[j] = {"random_seed": 11 + j}
+        member_opts[j - 1] = member_opts[j - 1] or {"random_seed": 3}
     return {"family": family, "symbols": symbols, "members": nmem, "profiles": profiles, "member_opts": member_opts,
+            "member_names": member_names,
             "incremental": bool(tape.draw(2, "incremental")),
             "exit_on_exception": tape.chance(1, 4, "exit_on_exception"),
             "ops": ops}
@@ -197,11 +205,22 @@ def execute(plan, tape):
     kernel = Kernel(tape, max_steps=20000, max_time=300.0)
     world = World(kernel, tape)
     net = Net(kernel, tape)
-    names = []
-    for m in range(nmem):
-        world.profiles["m%d" % m] = plan["profiles"][m]
-        env.factory.add_generic_solver("m%d" % m, ["ref", "m%d" % m], [QF_BV])
-        names.append("m%d" % m)
+    names = list((plan.get("member_names") or ["m%d" % m for m in range(nmem)])[:nmem])
+    if len(names) < nmem:
+        names += ["m%d" % m for m in range(len(names), nmem)]
+    for nm in sorted(set(names)):
+        env.factory.add_generic_solver(nm, ["ref", nm], [QF_BV])
+
+    def profile_fn(key, owner):
+        # the member is identified by the name of its process: "<index> (<solver name>)"
+        try:
+            idx = int(owner.name.split(" ")[0])
+        except (AttributeError, ValueError):
+            return None
+        si = max(state["solve_no"] - 1, 0)
+        lst = plan["profiles"][idx % len(plan["profiles"])]
+        return (lst[min(si, len(lst) - 1)], idx, si)
+    world.profile_fn = profile_fn
     for n, s in symbols.items():
         mgr.Symbol(n, bp.to_pysmt_type(s, env))
     faulty = plan["family"] == "faulty"
@@ -218,10 +237,12 @@ def execute(plan, tape):
             opts["solver_options"] = {"exit_on_exception": True}
         mo = plan.get("member_opts") or []
         sset = [(n, dict(mo[j])) if j < len(mo) and mo[j] else n for j, n in enumerate(names)]
+        if len(set(names)) < len(names):
+            probe("same_solver_listed_twice")
         return api("Portfolio()", Portfolio, sset, environment=env, logic=QF_BV, **opts)
 
     def incarnation_procs(si):
-        return [p for p in world.procs if p.incarnation == si and p.key in names]
+        return [p for p in world.procs if p.solve_no == si and p.member_idx is not None]
 
     def member_status(si):
         """what each member of solve #si could do: 'answer', 'stall' or 'fail'"""
@@ -244,10 +265,11 @@ def execute(plan, tape):
         out = {}
         for p in incarnation_procs(si):
             s = p.solver
+            k_ = "%d:%s" % (p.member_idx, p.key)
             if s.faults_fired or p.profile.get("die_at_start"):
-                out[p.key] = "stall" if s.faults_fired.get("stall") or p.profile.get("fault") == "stall" else "fail"
+                out[k_] = "stall" if s.faults_fired.get("stall") or p.profile.get("fault") == "stall" else "fail"
             else:
-                out[p.key] = "stall" if p.profile.get("fault") == "stall" else "answer"
+                out[k_] = "stall" if p.profile.get("fault") == "stall" else "answer"
         return out
 
     def solve_like(label, fn, fs_truth, pf_obj, negate=False):
